@@ -403,6 +403,15 @@ class EngineBase:
             if callable(sort.arg2):
                 inv = list(inv) + [sort.arg2(x)]      # refinement: e.g. "an IRI" among the generic terms
             return st, ADT(x, sort.arg), list(inv)
+        if k == "kwargs":
+            # a **kwargs parameter: a dictionary with exactly the declared keys (sort.arg: name -> Sort); forwarded with **
+            items, invs = [], []
+            for kname, ks in (sort.arg or {}).items():
+                st, v, inv = self.make(st, ks, f"{name}[{kname}]")
+                items.append((kname, v))
+                invs += inv
+            st, r = self.alloc(st, "kwargs", None, items=tuple(items))
+            return st, r, invs
         if k in self.reg.models:
             return self.reg.models[k].make(self, st, sort, name)
         if k == "obj":
